@@ -11,7 +11,10 @@ def _merge(dicts):
     out = {}
     for d in dicts:
         for k, v in d.items():
-            out[k] = out.get(k, 0) + v
+            if k.startswith('max_'):
+                out[k] = max(out.get(k, 0), v)
+            else:
+                out[k] = out.get(k, 0) + v
     return dict(sorted(out.items()))
 
 
